@@ -19,7 +19,7 @@ PID = "C21"
 LEVEL = "proof"
 LEAN = ["SaVerif.Props.C21"]
 META = {
-    "text": "Lean theorems: a convention-generated name of any length renders with at most max characters when max >= 8, with max the dialect's index/constraint/identifier limit read from the working tree (truncated_len_le_max*, md5 uninterpreted with 32 output characters); for EVERY sequence of _truncated_identifier requests in one compilation, any label_length and any mix of names: results are at most label_length long while fewer than 16^5-1 names are truncated (label_len_le), two requests of the same class that received the same rendered name were requests for the same name (truncated_distinct), and a repeated request renders identically (memo_stable) — proved by an invariant over the memo/counter state machine; over the engine's life (limits may shrink at initialize()) every label, index and constraint name emitted after a successful connect is bounded by the limits reported at that connect, whatever was formatted before (names_after_connect_respect_new_limit). Model tied to the code by differential runs of real call sequences, and the property checked on compiled DDL (7 dialects + small limits) and on statements under a label_length sweep, executed on SQLite.",
+    "text": "Lean theorems: a convention-generated name of any length renders with at most max characters when max >= 8, with max the dialect's index/constraint/identifier limit read from the working tree (truncated_len_le_max*, md5 uninterpreted with 32 output characters); for EVERY sequence of _truncated_identifier requests in one compilation, any label_length and any mix of names: results are at most label_length long while fewer than 16^5-1 names are truncated (label_len_le), two requests of the same class that received the same rendered name were requests for the same name (truncated_distinct), and a repeated request renders identically (memo_stable) — proved by an invariant over the memo/counter state machine; the labels of one columns clause are pairwise distinct for every list of named columns, any repetition count, clashes and interleaving (select_labels_distinct, transcription of _generate_columns_plus_names); names handed out by prefix_anon_map are injective in the key for every lookup sequence (anon_names_distinct); statements derived from one text() template carry distinct keys for a unique parameter (text_derived_binds_distinct, maintain_key flag read by ast); over the engine's life (limits may shrink at initialize()) every label, index and constraint name emitted after a successful connect is bounded by the limits reported at that connect, whatever was formatted before (names_after_connect_respect_new_limit). Model tied to the code by differential runs of real call sequences, and the property checked on compiled DDL (7 dialects + small limits) and on statements under a label_length sweep, executed on SQLite.",
     "note": "Partial / known findings: explicitly given names are validated against max_identifier_length only, so on MySQL/MariaDB an explicit index or constraint name of 65..255 characters is rendered although the limit is 64 (explicit_exceeds_specific_max_counterexample); max < 8 breaks the bound (truncated_small_max_counterexample; no shipped dialect); a plain column literally named like a generated label (anon_1) shares the result-column name with the anonymous label (outside _truncated_identifier, hypothesis of truncated_distinct). Trusted / assumed: documented server limits for index/constraint names (PostgreSQL 63, MySQL/MariaDB 64, MSSQL 128, Oracle 128; dialect_limits_within_backend) and the documented meaning of the convention tokens (harness ref_expand); md5 gives 32 hex characters; collisions of the 4-hex-digit md5 suffix between different long DDL names are outside the theorems (probabilistic); apply_map / anon_map (anonymous counters) is outside the Lean model; ConventionDict is modelled for the documented tokens (no custom callables, no column_N_label).",
     "technique": "Lean 4 invariant proof over the truncation state machine (all request sequences), arithmetic lemmas for hex rendering; decide over regenerated dialect limits; differential correspondence; compile/execute oracle",
     "design_ref": "DESIGN.md §3 C21",
@@ -35,8 +35,32 @@ def tables():
     return {k: (ds[k].max_identifier_length, ds[k].max_index_name_length, ds[k].max_constraint_name_length) for k in DIALECTS}
 
 
+def text_bindparams_maintain_key():
+    """read (by ast) the maintain_key argument of the `existing._with_value(...)` call in
+    TextClause.bindparams (default False when the keyword is absent)"""
+    import ast
+    import inspect
+    import textwrap
+    from sqlalchemy.sql.elements import TextClause
+
+    tree = ast.parse(textwrap.dedent(inspect.getsource(TextClause.bindparams)))
+    found = []
+    for node in ast.walk(tree):
+        if isinstance(node, ast.Call) and isinstance(node.func, ast.Attribute) and node.func.attr == "_with_value":
+            mk = False
+            for kw in node.keywords:
+                if kw.arg == "maintain_key":
+                    mk = kw.value.value if isinstance(kw.value, ast.Constant) else None
+            if len(node.args) > 1:
+                mk = None
+            found.append(mk)
+    return found
+
+
 def gen(ctx):
     t = tables()
+    mk = text_bindparams_maintain_key()
+    ctx.obligation("translator: TextClause.bindparams copies parameters with one literal maintain_key", len(mk) == 1 and mk[0] in (True, False), repr(mk))
     o = ["/-! Identifier length limits read from the dialect classes of the working tree:",
          "    (max_identifier_length, max_index_name_length, max_constraint_name_length) -/",
          "namespace SaVerif.Gen.NamingTables"]
@@ -45,6 +69,8 @@ def gen(ctx):
         a, b, c = t[k]
         o.append("def %s : Nat × Option Nat × Option Nat := (%d, %s, %s)" % (k, a, opt(b), opt(c)))
     o.append("def all : List (Nat × Option Nat × Option Nat) := [%s]" % ", ".join(DIALECTS))
+    o.append("/-- `maintain_key` passed by TextClause.bindparams(name=value) to `_with_value` -/")
+    o.append("def textBindparamsMaintainKey : Bool := %s" % ("true" if (mk and mk[0]) else "false"))
     o.append("end SaVerif.Gen.NamingTables")
     ctx.write_gen("NamingTables", "\n".join(o) + "\n")
 
@@ -565,6 +591,124 @@ def stmt_oracle(case):
     return probs
 
 
+def labels_case(rng):
+    """a columns clause over 2-3 tables whose column names clash, with repetitions (up to 5 of
+    one column) and interleaving"""
+    names = rng.sample(["a", "b", "id", "x", "val"], rng.randint(1, 3))
+    tables = [("t%d" % i, list(names) + (["only%d" % i] if rng.random() < 0.5 else [])) for i in range(1, rng.randint(2, 3) + 1)]
+    picks = []
+    for _ in range(rng.randint(2, 9)):
+        ti = rng.randrange(len(tables))
+        picks.append((ti, rng.choice(tables[ti][1])))
+    if rng.random() < 0.7:  # make one column appear at least three times, preferably a clashing one
+        ti = rng.randrange(len(tables))
+        cn = rng.choice(names)
+        for _ in range(rng.randint(3, 5)):
+            picks.insert(rng.randrange(len(picks) + 1), (ti, cn))
+    return {"tables": tables, "picks": picks, "tq": rng.random() < 0.4}
+
+
+def labels_real(case, execute=True):
+    """compile (and execute on SQLite) the SELECT; returns (result-column names, problems)"""
+    import warnings
+    from sqlalchemy import MetaData, Table, Column, Integer, select, create_engine, LABEL_STYLE_TABLENAME_PLUS_COL, LABEL_STYLE_DISAMBIGUATE_ONLY
+    from sqlalchemy.pool import StaticPool
+
+    probs = []
+    m = MetaData()
+    tabs = [Table(tn, m, *[Column(c, Integer) for c in cols]) for tn, cols in case["tables"]]
+    exprs = [tabs[ti].c[cn] for ti, cn in case["picks"]]
+    st = select(*exprs).set_label_style(LABEL_STYLE_TABLENAME_PLUS_COL if case["tq"] else LABEL_STYLE_DISAMBIGUATE_ONLY)
+    e = create_engine("sqlite://", poolclass=StaticPool)
+    try:
+        comp = st.compile(e)
+        names = [x[0] for x in comp._result_columns]
+        if len(set(names)) != len(names):
+            probs.append(("result-column-names-collide", "names %r for %r" % (names, case["picks"])))
+        sub = select(*exprs).set_label_style(st._label_style).subquery()
+        subnames = [x[0] for x in select(sub).compile(e)._result_columns]
+        if len(set(subnames)) != len(subnames) or len(subnames) != len(set(case["picks"])) and False:
+            probs.append(("result-column-names-collide", "subquery columns %r" % (subnames,)))
+        if execute:
+            with warnings.catch_warnings():
+                warnings.simplefilter("ignore")
+                with e.connect() as c:
+                    m.create_all(c)
+                    vals, v = {}, 0
+                    for t in tabs:
+                        row = {}
+                        for col in t.c:
+                            v += 1
+                            row[col.name] = v
+                            vals[(t.name, col.name)] = v
+                        c.execute(t.insert().values(row))
+                    res = c.execute(st)
+                    keys = list(res.keys())
+                    row = res.one()
+                    want = [vals[(tabs[ti].name, cn)] for ti, cn in case["picks"]]
+                    if list(row) != want or len(set(keys)) != len(keys):
+                        probs.append(("result-row-misassigned", "row %r keys %r expected %r" % (tuple(row), keys, want)))
+    except Exception as ex:  # noqa: BLE001
+        names = []
+        probs.append(("statement-does-not-compile", "%s: %s" % (type(ex).__name__, str(ex).split("\n")[0][:150])))
+    finally:
+        e.dispose()
+    return names, probs
+
+
+def text_template_case(rng):
+    return {"unique": rng.random() < 0.8, "k": rng.randint(2, 5), "values": [rng.randint(1, 99) for _ in range(5)],
+            "shape": rng.choice(["union", "subqueries", "scalar"]), "extra_binds": rng.randint(0, 2)}
+
+
+def text_template_real(case):
+    """derive k statements from ONE text() template with .bindparams(name=value) and embed them all
+    in one statement; returns (key pattern of the derived binds, problems)"""
+    from sqlalchemy import text, bindparam, Integer, column, union_all, select, literal, create_engine
+    from sqlalchemy.pool import StaticPool
+
+    probs = []
+    base = text("select :val as v").bindparams(bindparam("val", type_=Integer, unique=case["unique"]))
+    vals = case["values"][: case["k"]]
+    derived = [base.bindparams(val=v) for v in vals]
+    keys = [d._bindparams["val"].key for d in derived]
+    pattern = [keys.index(k) for k in keys]
+    if not case["unique"]:
+        return pattern, probs  # one shared name is the documented meaning of a non-unique parameter
+    if case["shape"] == "union":
+        st = union_all(*[d.columns(column("v")) for d in derived])
+        want = sorted(vals)
+        get = lambda c: sorted(r[0] for r in c.execute(st))  # noqa: E731
+    elif case["shape"] == "subqueries":
+        subs = [d.columns(column("v")).subquery() for d in derived]
+        st = select(*[s_.c.v for s_ in subs], *[literal(1000 + i) for i in range(case["extra_binds"])])
+        want = list(vals) + [1000 + i for i in range(case["extra_binds"])]
+        get = lambda c: list(c.execute(st).one())  # noqa: E731
+    else:
+        st = select(*[d.columns(column("v")).scalar_subquery() for d in derived])
+        want = list(vals)
+        get = lambda c: list(c.execute(st).one())  # noqa: E731
+    e = create_engine("sqlite://", poolclass=StaticPool)
+    try:
+        comp = st.compile(e)
+        nparams = len(derived) + (case["extra_binds"] if case["shape"] == "subqueries" else 0)
+        if len(comp.params) != nparams:
+            probs.append(("bind-names-collide", "%d parameters but %d names: %r" % (nparams, len(comp.params), dict(comp.params))))
+        import warnings
+
+        with warnings.catch_warnings():
+            warnings.simplefilter("ignore")
+            with e.connect() as c:
+                got = get(c)
+        if got != want:
+            probs.append(("bind-values-lost", "statement returned %r, expected %r" % (got, want)))
+    except Exception as ex:  # noqa: BLE001
+        probs.append(("statement-does-not-compile", "%s: %s" % (type(ex).__name__, str(ex).split("\n")[0][:150])))
+    finally:
+        e.dispose()
+    return pattern, probs
+
+
 def anon_collision_probe():
     """a plain column literally named like a generated label"""
     from sqlalchemy import Table, MetaData, Column, Integer, select
@@ -652,6 +796,26 @@ def run(ctx, deep=False):
                                                  ",".join("%s~%s" % (E(n), E(k)) for n, k in cols) if cols else "-", E(reft), EL(refcols) if kind == "fk" else "-"))
         ctx.case(("conv", kind, tmpl, cols, cname))
         ctx.count("conv:" + (r[0] if r[0] != "ok" else "expanded"))
+    # ---- labels of a columns clause with repetitions and clashes; text() templates re-derived
+    label_cases, text_cases = [], []
+    for _ in range(150 if not thorough else 1500):
+        lc = labels_case(rng)
+        names, probs = labels_real(lc, execute=True)
+        label_cases.append((lc, probs))
+        ids, cols = {}, []
+        for ti, cn in lc["picks"]:
+            cid = ids.setdefault((ti, cn), len(ids) + 1)
+            cols.append("%d~%s~%s" % (cid, E(lc["tables"][ti][0]), E(cn)))
+        if names:
+            add({"op": "labels", "case": lc}, EL(names), "naming labels %s %s" % ("T" if lc["tq"] else "F", ",".join(cols)))
+        ctx.case(("labels", lc))
+        ctx.count("labels:max-repeat=%d" % max(lc["picks"].count(p) for p in lc["picks"]))
+    for _ in range(60 if not thorough else 600):
+        tc = text_template_case(rng)
+        pattern, probs = text_template_real(tc)
+        text_cases.append((tc, probs))
+        add({"op": "derive", "case": tc}, ",".join(str(x) for x in pattern) if pattern else "-", "naming derive %s %d" % ("T" if tc["unique"] else "F", tc["k"]))
+        ctx.case(("text-template", tc))
     # ---- engine lifecycle: limits change at connect
     life_cases = []
     for _ in range(250 if not thorough else 2500):
@@ -716,6 +880,12 @@ def run(ctx, deep=False):
             seen[(cls, r)] = n
             if c_["ll"] >= 6 and len(r[2:].split(".")) > c_["ll"] and r != "s:":
                 ctx.violation("truncated-name-exceeds-label-length", {"kind": "idents", "ll": c_["ll"], "reqs": c_["reqs"]}, "%s longer than %d" % (r, c_["ll"]))
+    for lc, probs in label_cases:
+        for key, detail in probs:
+            ctx.violation(key, {"kind": "labels", "case": lc}, detail)
+    for tc, probs in text_cases:
+        for key, detail in probs:
+            ctx.violation(key, {"kind": "text-template", "case": tc}, detail)
     # ---- lifecycle oracle on the real dialect objects, then through a real Engine
     for case, outs in life_cases:
         if case["user_max"]:
@@ -750,6 +920,17 @@ def search(ctx, broken):
 
 def replay(ctx, obj):
     c = obj["case"]
+    if c["kind"] == "labels":
+        cs = dict(c["case"])
+        cs["tables"] = [(tn, list(cols)) for tn, cols in cs["tables"]]
+        cs["picks"] = [tuple(p) for p in cs["picks"]]
+        names, probs = labels_real(cs)
+        print("replay C21 columns clause %r -> names %r problems %r" % (cs["picks"], names, probs))
+        return bool(probs)
+    if c["kind"] == "text-template":
+        pattern, probs = text_template_real(c["case"])
+        print("replay C21 text() template %r -> key pattern %r problems %r" % (c["case"], pattern, probs))
+        return bool(probs)
     if c["kind"] == "engine-life":
         probs = engine_lifecycle_case(c["class_limit"], c["server_limit"], c["label_length"], c["name_len"])
         print("replay C21 engine lifecycle %r -> %r" % (c, probs))
